@@ -118,7 +118,9 @@ def generate(rng, tier):
         else:
             n = rng.choice([5, 300, 70000, 2 ** 24])       # length word promising more than is there
             extra = n.to_bytes(4, "little") + bytes(rng.randrange(256) for _ in range(rng.randrange(0, 30)))
-        cuts = [total] if i % 3 else sorted(set([total, rng.randrange(total + 1)]))
+        # only at a frame boundary: a cut inside a frame followed by other bytes makes both Go and the
+        # model read a random 32-bit value size (Go then allocates up to 4 GiB; the model pads with zeros)
+        cuts = [total]
         cases.append({"recs": recs, "sync": bool(i % 2), "cuts": cuts, "extra": extra.hex(), "chunk": rng.choice([0, 1, 4]),
                       "kind": "bytes_after_cut"})
     return cases
